@@ -297,6 +297,8 @@ def check_case(case):
     if a.outcome.kind == "nosol":
         v.cls("no_solution")
     for x in (a, b):
-        if x.outcome.kind in ("budget", "valueerror", "exception"):
-            v.inconclusive = "solve failed (reported by C06)"
+        if x.outcome.kind == "budget":
+            v.inconclusive = "sweep budget exceeded (reported by C06)"
+        elif x.outcome.kind in ("valueerror", "exception"):
+            v.fail("solve-raises", "a well-formed stopping game is not solved: " + x.outcome.brief(), sig=f"{x.outcome.kind}@{x.outcome.where}")
     return v
